@@ -1,6 +1,6 @@
 HOOK_COMMITS = ["bc7826eeb31079b932557c6566a10da9b9acc9ce"]
 _PENDING = "check not built yet in this round (planned, see DESIGN.md section 9); not a statement that the technique cannot apply"
-NOT_APPLICABLE = {p: _PENDING for p in ["C05","C10","C11","C12","C16"]}
+NOT_APPLICABLE = {p: _PENDING for p in ["C05","C11","C12","C16"]}
 TEXT = {
  "C17": {
   "text": "Lean mirror of integer.h / dyadic_rational.h / rational.h; theorems for every modulus m>=2 and every operand state that each "
@@ -98,6 +98,22 @@ TEXT = {
   "design_ref": "5.19",
   "note": "clause (c) is runtime monitoring on generated inputs, not proof (no executable Lean model can exhibit out-of-bounds access); variable_db/variable_order counters are opaque and observed only via sanitizers",
   "technique": "Lean 4 invariant proof (refcount protocol) + correspondence with aliased/pre-used outputs + sanitizer monitoring",
+ },
+ "C10": {
+  "text": "lp_polynomial_sgn / _evaluate / _constraint_evaluate are judged on every run by the exact-sign procedure of the Lean model: "
+          "closed interval evaluation of the polynomial over the isolating intervals of the assigned algebraic numbers, refined until 0 is "
+          "excluded; when it cannot be excluded the variables are eliminated from z - p(x) by Sylvester determinants and the answer 0 is "
+          "given only when 0 is the unique root of the square-free eliminant inside the enclosure. Proved for every integer polynomial, "
+          "every assignment of valid algebraic numbers and every number of refinement rounds: the interval evaluation encloses the real "
+          "value (ievalM_encloses), refinement keeps the point (refineAll_sound), and the sign answered is the sign of the real value "
+          "(C10_sign_sound; non-zero answers unconditionally, the answer 0 under the hypothesis that the eliminant vanishes at the value: "
+          "the classical resultant property, trusted); the six sign conditions (C10_consistent). Values are accepted only through the "
+          "proved root selection (C07_select_sound). Generator: algebraically dependent tuples (sqrt2, sqrt3, sqrt6; conjugates; cubic "
+          "roots), exact zeros, near zeros (zero + 1 scaled by up to 2^40), vanishing leading coefficients, a family stressing the "
+          "root-separation bound of the C zero test, 20% under the reversed variable order.",
+  "design_ref": "5.10",
+  "note": "elimination steps of Sylvester order > 8 are skipped and counted (only certified non-zero signs are judged there); the D21 hypothesis (root lower bound) did not manifest end-to-end in 8000 targeted cases",
+  "technique": "Lean 4 proved exact-sign procedure (validator) + per-output validation of the C results",
  },
  "C09": {
   "text": "Model: the in-place mutation primitives of lp_algebraic_number_t (bisection step, refinement with a point incl. collapse to "
